@@ -8,14 +8,16 @@ from ..ref import pairwise, scoring
 
 META = {
     "level": "exploration",
-    "rule": ("cases = untied generated profiles (partial ballots with <=4 missing candidates, rational weights, zero-vote "
+    "rule": ("cases = generated profiles (one in five with tied positions; partial ballots with <=4, sometimes 5, missing candidates, rational weights, zero-vote "
              "candidates, pairwise ties, Condorcet cycles of length 3..n, nested cycles) x m. Oracle: reference margins; "
              "brute-force tiers; the defining tier properties asserted on the returned tiers; Condorcet equivalences; "
              "DominatingSets = tier 0; CondoBorda = whole tiers then higher reference Borda. distinct = hash(case); "
              "non-trivial = >=2 tiers or a tier of size >=3 or a pairwise tie."),
     "assumptions": ["n <= 6 (quick) / 7 (thorough) because ballot_fill expands k! completions per short ballot"],
     "min_obs": {"all": {"graphs_checked": 500, "multi_tier": 200, "big_tier": 100, "pairwise_tie": 50,
-                        "condorcet_winner": 100, "condoborda_straddle": 50, "dominating_checked": 200}},
+                        "condorcet_winner": 100, "condoborda_straddle": 50, "dominating_checked": 200,
+                        "profiles_with_tied_positions": 100, "ballots_five_short": 10, "graphs_with_ballot_length": 100,
+                        "short_ballots_left_unfilled_by_ballot_length": 30}},
 }
 
 
@@ -32,14 +34,19 @@ def gen_profile(rnd, maxn):
         bl = [canon.spec_ballot(r=[[c] for c in r], w=w), canon.spec_ballot(r=[[c] for c in r[::-1]], w=w)]
         bl += gen.ranked(rnd, cs=cs, nb=rnd.randint(0, 2))["ballots"]
         spec, m = canon.spec_profile(cs, bl), rnd.randint(1, n)
-    else:
+    elif t < 0.8:
         spec, m, _ = gen.any_ranked(rnd, maxn=maxn)
-    # limit the number of missing candidates per ballot (k! blow-up)
+    else:
+        # ballots with tied positions (neither tied candidate is ranked above the other)
+        n = rnd.randint(2, maxn)
+        spec, m = gen.ranked(rnd, n=n, ties=True, maxb=8), rnd.randint(1, n)
+    # limit the number of missing candidates per ballot (k! blow-up): four, sometimes five (bullet votes among six)
     n = len(spec["cands"])
+    limit = 5 if rnd.random() < 0.15 else 4
     for b in spec["ballots"]:
-        have = [g[0] for g in b["r"]]
+        have = [c for g in (b.get("r") or []) for c in g]
         miss = [c for c in spec["cands"] if c not in have]
-        while len(miss) > 4:
+        while len(miss) > limit:
             b["r"].append([miss.pop()])
     return spec, min(m, n)
 
@@ -55,6 +62,13 @@ def check_case(ctx, case):
     mg = pairwise.margins(cands, ballots)
     ref_t = pairwise.tiers(cands, mg)
     has_tie = any(mg[a][b] == 0 for a in cands for b in cands if a != b)
+    if any(len(g) > 1 for rk, _, _ in ballots for g in rk):
+        ctx.count("profiles_with_tied_positions")
+    if any(n - sum(len(g) for g in rk) >= 5 for rk, _, _ in ballots):
+        ctx.count("ballots_five_short")
+    Lb = case.get("ballot_length")
+    if Lb is not None and any(Lb <= sum(len(g) for g in rk) < n for rk, _, _ in ballots):
+        ctx.count("short_ballots_left_unfilled_by_ballot_length")
     nontriv = len(ref_t) >= 2 or any(len(t) >= 3 for t in ref_t) or has_tie
     ctx.case(case, nontrivial=nontriv)
     if len(ref_t) >= 2:
